@@ -136,8 +136,32 @@ def build_mesh(m):
     return mesh
 
 
+class _StubPlotter:
+    """Stands in for a pyvista plotter handed over through the public plotter= argument."""
+
+    def __getattr__(self, name):
+        return lambda *a, **k: None
+
+
+def look_at_region(region):
+    """Read-only use of a region and of the objects it shares with every other region of its
+    template (the default quadrature scheme and element instances)."""
+    q = region.quadrature
+    q.plot(plotter=_StubPlotter(), weighted=True)
+    q.plot(plotter=_StubPlotter(), weighted=False, point_size=7)
+    if hasattr(q, "inv"):
+        q.inv()
+    if hasattr(region, "copy"):
+        region.copy()
+    pts = np.array(q.points, copy=True)
+    region.element.function(pts[0])
+    region.element.gradient(pts[0])
+
+
 def build_region(mesh, spec=None):
     spec = spec or {}
+    if spec.get("look"):
+        look_at_region(build_region(mesh, {k: v for k, v in spec.items() if k != "look"}))
     if mesh.cell_type.startswith("VTK_LAGRANGE"):
         region = fem.RegionLagrange(mesh, order=spec["order"], dim=mesh.dim, permute=spec.get("permute", True))
         if np.any(region.dV <= 0):
